@@ -70,6 +70,33 @@ func mSplit(u string) []mpart {
 	return out
 }
 
+// leadingScheme: the URL starts with "<scheme>://" (RFC 3986 scheme syntax,
+// or an empty scheme).  The property text speaks of host/path URLs; whether
+// a scheme IN FRONT of the host is ignored or makes the URL something else
+// is not fixed by it (today: a declaration spelled so is refused, a request
+// spelled so is a request to the "host" "http:").  The monitor therefore
+//   - reads a DECLARED URL with a leading scheme as the URL behind the scheme
+//     (an implementation that accepts "https://h/p" as "h/p" is not blamed;
+//     one that refuses it is never asked),
+//   - does not judge a REQUEST spelled with a leading scheme.
+//
+// A "://" anywhere AFTER the host is not a scheme: the request is a request
+// to the host in front of it, and is judged as such.
+func leadingScheme(u string) (rest string, ok bool) {
+	i := strings.Index(u, "://")
+	if i < 0 {
+		return u, false
+	}
+	for j := 0; j < i; j++ {
+		ch := u[j]
+		alpha := (ch >= 'a' && ch <= 'z') || (ch >= 'A' && ch <= 'Z')
+		if !(alpha || (j > 0 && ((ch >= '0' && ch <= '9') || ch == '+' || ch == '-' || ch == '.'))) {
+			return u, false
+		}
+	}
+	return u[i+3:], true
+}
+
 func isBrace(s string) bool { return strings.HasPrefix(s, "{") && strings.HasSuffix(s, "}") }
 
 // a declared URL as a pattern; valid = no empty part, wildcard only last
@@ -247,6 +274,9 @@ func infos(k *Case) (ds []declInfo, clash bool) {
 	var pats [][]mstep
 	for _, d := range k.Decls {
 		p, v := mPattern(d.URL)
+		if rest, ok := leadingScheme(d.URL); ok && !v {
+			p, v = mPattern(rest)
+		}
 		ds = append(ds, declInfo{d, p, v})
 		if v {
 			pats = append(pats, p)
@@ -302,6 +332,9 @@ func monitorCase(k *Case) []c.Hit {
 		}
 	}
 	for _, q := range k.Reqs {
+		if _, ok := leadingScheme(q.URL); ok {
+			continue // reading not fixed by the property text (see leadingScheme)
+		}
 		u := mSplit(q.URL)
 		o := q.Obs
 		check := func(what string, owner map[int]int, sels []Sel, nm func(int) string) {
